@@ -191,7 +191,26 @@ type c01Sizes struct {
 func (o c01Sizes) Read(p []byte) (int, error) { return o.r.Read(p) }
 func (o c01Sizes) Size() int64                { return o.n }
 
-var c01Sources = []string{"bytes.Reader", "bytes.Buffer", "SectionReader", "os.File", "LimitedReader", "LimitedReader-short", "opaque", "onebyte", "Len=-1", "Len-small", "Len-big", "Size=-1", "Size-small", "Size-big"}
+// c01Stats: a source that offers Stat() like an *os.File, with a size that need not be what it delivers (a pipe,
+// a device, a procfs file report 0 and still yield data)
+type c01Stats struct {
+	r io.Reader
+	n int64
+}
+
+func (o c01Stats) Read(p []byte) (int, error) { return o.r.Read(p) }
+func (o c01Stats) Stat() (os.FileInfo, error) { return c01StatInfo{o.n}, nil }
+
+type c01StatInfo struct{ n int64 }
+
+func (i c01StatInfo) Name() string       { return "source" }
+func (i c01StatInfo) Size() int64        { return i.n }
+func (i c01StatInfo) Mode() os.FileMode  { return os.ModeNamedPipe | 0o600 }
+func (i c01StatInfo) ModTime() time.Time { return time.Unix(0, 0) }
+func (i c01StatInfo) IsDir() bool        { return false }
+func (i c01StatInfo) Sys() any           { return nil }
+
+var c01Sources = []string{"bytes.Reader", "bytes.Buffer", "SectionReader", "os.File", "LimitedReader", "LimitedReader-short", "opaque", "onebyte", "Len=-1", "Len-small", "Len-big", "Size=-1", "Size-small", "Size-big", "Stat=0", "Stat-small", "Stat-big", "os.Pipe"}
 
 // c01Source builds the reader and the number of bytes it will deliver.
 func c01Source(u *vfUnit, kind string, data []byte) (io.Reader, int, func()) {
@@ -225,6 +244,22 @@ func c01Source(u *vfUnit, kind string, data []byte) (io.Reader, int, func()) {
 		return c01Lens{bytes.NewReader(data), len(data) / 3}, len(data), nil
 	case "Len-big":
 		return c01Lens{bytes.NewReader(data), len(data)*3 + 100000}, len(data), nil
+	case "Stat=0":
+		return c01Stats{bytes.NewReader(data), 0}, len(data), nil
+	case "Stat-small":
+		return c01Stats{bytes.NewReader(data), int64(len(data) / 3)}, len(data), nil
+	case "Stat-big":
+		return c01Stats{bytes.NewReader(data), int64(len(data))*3 + 100000}, len(data), nil
+	case "os.Pipe":
+		pr, pw, err := os.Pipe()
+		if err != nil {
+			return c01Opaque{bytes.NewReader(data)}, len(data), nil
+		}
+		go func() {
+			pw.Write(data)
+			pw.Close()
+		}()
+		return pr, len(data), func() { pr.Close() }
 	case "Size=-1":
 		return c01Sizes{bytes.NewReader(data), -1}, len(data), nil
 	case "Size-small":
@@ -564,7 +599,7 @@ func c01Run(u *vfUnit) {
 // reading as zeros, never what the file held in its earlier life.
 func c01AfterShrink(u *vfUnit, e *c01Env) {
 	c := e.sess.C
-	for variant := 0; variant < 2; variant++ {
+	for variant := 0; variant < 3; variant++ {
 		p := e.path(9000 + variant)
 		label := fmt.Sprintf("%s | after-shrink/%d", e.cfg, variant)
 		old := vfPattern(7000+uint64(variant), 0, 6000)
@@ -581,9 +616,20 @@ func c01AfterShrink(u *vfUnit, e *c01Env) {
 				f.Close()
 				continue // a backend without truncate support
 			}
-		} else {
+		} else if variant == 1 {
 			f.Close()
 			if f, err = c.Create(p); err != nil { // O_TRUNC under the same name
+				u.Violation("open-failed", label+": "+err.Error(), nil)
+				return
+			}
+		} else {
+			// the existing file re-opened for writing with O_TRUNC alone (no O_CREATE), as os.OpenFile(p, O_WRONLY|O_TRUNC)
+			f.Close()
+			flags := os.O_WRONLY | os.O_TRUNC
+			if e.cfg.backend != 1 || e.cfg.openFileImpl {
+				flags = []int{os.O_WRONLY | os.O_TRUNC, os.O_RDWR | os.O_TRUNC}[u.Index%2]
+			}
+			if f, err = c.OpenFile(p, flags); err != nil {
 				u.Violation("open-failed", label+": "+err.Error(), nil)
 				return
 			}
@@ -642,6 +688,13 @@ func c01SharedWrite(u *vfUnit, e *c01Env) {
 			defer wg.Done()
 			<-gate
 			for k := 0; k < perG; k++ {
+				if (g+k)%3 == 2 {
+					// the other offset-consuming entry point: the File as the destination of a copy
+					if n, err := f.ReadFrom(c01Opaque{bytes.NewReader(rec(g, k))}); n != int64(L) || err != nil {
+						bad.Store(fmt.Sprintf("ReadFrom of record %d/%d returned (%d, %v)", g, k, n, err))
+					}
+					continue
+				}
 				if n, err := f.Write(rec(g, k)); n != L || err != nil {
 					bad.Store(fmt.Sprintf("Write of record %d/%d returned (%d, %v)", g, k, n, err))
 				}
